@@ -54,6 +54,15 @@ def sh(cmd, timeout=None, cwd=None, env=None, input=None, check=False):
     return p.returncode, p.stdout
 
 
+class GlobalLock:
+    """one lock for every run on this machine, whatever its cache directory: the generated facts files live in the shared Coq tree"""
+    def __init__(self, name): self.path = '/var/tmp/tfhe-verif-%s.lock' % name
+    def __enter__(self):
+        self.f = open(self.path, 'w'); fcntl.flock(self.f, fcntl.LOCK_EX); return self
+    def __exit__(self, *a):
+        fcntl.flock(self.f, fcntl.LOCK_UN); self.f.close()
+
+
 class Lock:
     def __init__(self, name):
         os.makedirs(CACHE, exist_ok=True)
